@@ -66,6 +66,8 @@ impl SampleIndex {
         }
 
         let (num_samples, divisor) = Self::parameters(len, universe);
+        #[cfg(feature = "verif-probes")]
+        if num_samples > 1 { crate::verif::hit(crate::verif::probe::SAMPLE_INDEX_MULTI); }
         let width = bits::bit_len((len - 1) as u64);
         let mut samples = IntVector::with_len(num_samples, width, 0).unwrap();
 
